@@ -17,8 +17,8 @@
 (* This module enumerates the alphabet and, for every group of GroupSize   *)
 (* constants, one abstract program (the JSON form AldorSem.tla evaluates)  *)
 (* that prints arithmetic on them: the constant itself, its neighbours,    *)
-(* products, truncating quotient and remainder with a variable operand,    *)
-(* comparisons, and the same inside a function.  The programs are ordinary *)
+(* a product and a truncating quotient with a variable operand, and        *)
+(* constants inside a function.  The programs are ordinary *)
 (* members of C12's family: their expected behaviour is derived by TLC     *)
 (* from AldorSem / AldorSemW32 and every run is judged by JavaRoute.tla.   *)
 (*                                                                         *)
@@ -73,14 +73,11 @@ BIFun(name, c) ==
   [name |-> name, ps |-> <<"x">>, pts |-> <<"bi">>, rt |-> "bi", pure |-> TRUE,
    body |-> Prim("bi.add", <<Prim("bi.sub", <<Var("x"), Lit("bi", c)>>), Lit("bi", Add(c, One))>>)]
 
+(* (a Java method holds at most 64 KB of code and at -Q5 and above all output statements of a program are inlined  *)
+(*  into one method -- a recorded finding --, so a program carries about 25 printed values)                        *)
 BILines(c, fi) ==
-  << PrintLn(<<Lit("bi", c), Sp, Prim("bi.add", <<Lit("bi", c), Lit("bi", One)>>), Sp,
-             Prim("bi.sub", <<Lit("bi", c), Var("one")>>), Sp, Prim("bi.neg", <<Lit("bi", c)>>)>>),
-     PrintLn(<<Prim("bi.mul", <<Var("m3"), Lit("bi", c)>>), Sp, Prim("bi.quo", <<Lit("bi", c), Var("q7")>>), Sp,
-             Prim("bi.rem", <<Lit("bi", c), Var("q7")>>), Sp,
-             If(Prim("bi.lt", <<Var("one"), Lit("bi", c)>>), Str("gt1"), Str("le1"), "str"), Sp,
-             If(Prim("bi.eq", <<Prim("bi.add", <<Var("one"), Lit("bi", c)>>), Lit("bi", Add(c, One))>>), Str("eq"), Str("ne"), "str"), Sp,
-             Call(fi, <<Var("q7")>>)>>) >>
+  << PrintLn(<<Lit("bi", c), Sp, Prim("bi.sub", <<Lit("bi", c), Var("one")>>), Sp, Prim("bi.mul", <<Var("m3"), Lit("bi", c)>>), Sp,
+               Prim("bi.quo", <<Lit("bi", c), Var("q7")>>), Sp, Call(fi, <<Var("q7")>>)>>) >>
 
 BIProg(n) ==
   LET cs == GroupOf(BISeq, n) IN
@@ -96,10 +93,8 @@ SIFun(name, c) ==
    body |-> Prim(Inward(c), <<Lit("si", c), Var("x")>>)]
 SILines(c, fi) ==
   << PrintLn(<<Lit("si", c), Sp, Prim(Inward(c), <<Lit("si", c), Var("one")>>), Sp,
-             Prim("si.quo", <<Lit("si", c), Var("q7")>>), Sp, Prim("si.rem", <<Lit("si", c), Var("q7")>>), Sp,
-             Prim("bi.mul", <<Prim("si.tobi", <<Lit("si", c)>>), Var("big")>>), Sp,
-             If(Prim("si.lt", <<Var("one"), Lit("si", c)>>), Str("gt1"), Str("le1"), "str"), Sp,
-             Call(fi, <<Var("q7")>>)>>) >>
+               Prim("si.quo", <<Lit("si", c), Var("q7")>>), Sp,
+               Prim("bi.mul", <<Prim("si.tobi", <<Lit("si", c)>>), Var("big")>>), Sp, Call(fi, <<Var("q7")>>)>>) >>
 SIProg(n) ==
   LET cs == GroupOf(SISeq, n) IN
   [id |-> "L_si" \o ToString(n), seed |-> 0, feat |-> <<"lits">>, recs |-> <<>>, uns |-> <<>>,
